@@ -806,6 +806,8 @@ def adapt_typehints(
     elif get_registered_type(typehint):
         registered_type = get_registered_type(typehint)
         if serialize:
+            if not registered_type.is_value_of_type(val):
+                registered_type.deserializer(val)  # fails for values of a different type, e.g. of another Union member
             val = registered_type.serializer(val)
         elif not serialize and not registered_type.is_value_of_type(val):
             val = registered_type.deserializer(val)
